@@ -4,7 +4,8 @@
 (* section of updateLock in linearisation order) must be behaviours of          *)
 (* ParamCache.  Event: [op, now, c (cache by fields), w (cache as make_update   *)
 (* renders it), o (messages delivered per connection/parameter), s (client-side *)
-(* replay of everything received), unl (#updates sent outside updateLock), lk]. *)
+(* replay of everything received), unl (#updates sent outside updateLock), lk,  *)
+(* x (#messages for something that is no exported parameter)].                 *)
 (* First record of a trace: [omit, sub, nodefault, hidden, c, now].             *)
 (* An internal parameter callback is recorded as the connection "cb".           *)
 EXTENDS ParamCache, Json, IOUtils, TLCExt, SequencesExt
@@ -29,7 +30,7 @@ TInit == /\ t \in 1 .. NT /\ l = 2 /\ bad = ""
 (* the clauses an observed event must satisfy, in the order they are reported *)
 FirstBad ==
     LET cl == << <<"cache", \A p \in Params : CV(cache'[p]) = Ev.c[p]>>,
-                 <<"out", \A c \in Conns, p \in Params : out'[c][p] = Ev.o[c][p]>>,
+                 <<"out", Ev.x = 0 /\ \A c \in Conns, p \in Params : out'[c][p] = Ev.o[c][p]>>,
                  <<"wire", \A p \in Params \ hidden : View(cache'[p]) = Ev.w[p]>>,
                  <<"seen", \A c \in Conns, p \in Params : Listens(sub'[c], p) => seen'[c][p] = Ev.s[c][p]>>,
                  <<"lock", Ev.unl = 0 /\ Ev.lk>> >>
